@@ -17,7 +17,7 @@ import (
 type MusCase struct {
 	F      [][]int `json:"f"`
 	N      int     `json:"n"`
-	Method string  `json:"method"` // MUS | MUSDeletion | MUSInsertion | MUSMaxSat | UnsatSubset
+	Method string  `json:"method"`         // MUS | MUSDeletion | MUSInsertion | MUSMaxSat | UnsatSubset
 	Then   string  `json:"then,omitempty"` // second extraction on the same Problem value
 	Dev    int     `json:"dev"`
 }
